@@ -249,12 +249,21 @@ def audit(prop, theorems):
     d = os.path.join(LEAN, ".lake", "audit")
     os.makedirs(d, exist_ok=True)
     path = os.path.join(d, f"{prop}.lean")
-    with open(path, "w") as f:
-        f.write(f"import Verif.Props.{prop}\n")
-        for t in theorems:
-            f.write(f"#print axioms {t}\n")
-    rc, out, err = run(["lake", "env", "lean", path], cwd=LEAN, timeout=1800)
-    text = out + err
+    mine = os.path.join(d, f"{prop}.{os.getpid()}.lean")  # concurrent runs must not clobber each other's file
+    src = f"import Verif.Props.{prop}\n" + "".join(f"#print axioms {t}\n" for t in theorems)
+    with open(mine, "w") as f:
+        f.write(src)
+    text = ""
+    for attempt in range(2):
+        rc, out, err = run(["lake", "env", "lean", mine], cwd=LEAN, timeout=1800)
+        text = out + err
+        if "depends on axioms" in text or "does not depend on any axioms" in text:
+            break
+        time.sleep(2)  # nothing at all was printed: a transient tool failure (e.g. a concurrent build), try once more
+    else:
+        os.replace(mine, path)
+        raise InfraError(f"axiom audit of {prop} produced no output (rc={rc}): {text[-500:]}")
+    os.replace(mine, path)
     res = {}
     # outputs: "'name' depends on axioms: [a, b]" (possibly wrapped) or "'name' does not depend on any axioms"
     flat = re.sub(r"\s+", " ", text)
@@ -341,6 +350,10 @@ def evaluate(mod, cases):
     all_ops = []
     for c in cases:
         ia = mod.impl(c)
+        if any(isinstance(a, str) and a in ("Error:ImportError", "Error:ModuleNotFoundError") for a in ia):
+            # the harness could not even import an anchored function (renamed/moved by a refactor): that is a
+            # problem of the machinery, not evidence about the property
+            raise InfraError(f"{mod.PROP}: an anchored module/function could not be imported by the harness: {clean(c)!r}"[:600])
         ops = mod.ops(c)
         if len(ia) != len(ops):
             raise InfraError(f"{mod.PROP}: impl gave {len(ia)} answers for {len(ops)} ops: {c}")
